@@ -780,7 +780,8 @@ static bool_t rngIsValid_internal()
 bool_t rngIsValid()
 {
 	bool_t b;
-	if (!_inited)
+	// инициализация завершена? (синхронизация с rngInit() через триггер)
+	if (mtAtomicCmpSwap(&_once, 0, 0) != 1 || !_inited)
 		return FALSE;
 	mtMtxLock(_mtx);
 	b = rngIsValid_internal();
